@@ -104,6 +104,86 @@ theorem C03_threshold_chain (thr lvl : Nat) :
     · intro _; omega
     · intro _; trivial
 
+/-- Several thresholds, anywhere before the first scripted decision: with `pre` made of threshold
+filters and scripted-Neutral filters only, the chain `pre ++ rest` delivers exactly when the record
+is at most as verbose as EVERY threshold in `pre` — i.e. as their minimum — and `rest` delivers.
+(`rest = []`: a chain of thresholds; `rest = Accept :: _` / `Reject :: _`: the thresholds consulted
+before the first decisive scripted answer.) -/
+theorem C03_thresholds_conjoin (lvl : Nat) (pre rest : List Filter) (h : ∀ f ∈ pre, LevelGate f) :
+    (runChain lvl (pre ++ rest)).2 = true ↔
+      (∀ t ∈ thresholdsOf pre, lvl ≤ t) ∧ (runChain lvl rest).2 = true := by
+  rw [runChain_prefix_no_accept lvl pre rest (gates_no_accept lvl pre h), gates_all_neutral lvl pre h]
+  simp
+
+/-- the same with the minimum named: if `m` is the least threshold level in `pre`, the chain
+delivers iff `lvl ≤ m` and `rest` delivers; without any threshold in `pre`, iff `rest` delivers. -/
+theorem C03_thresholds_minimum (lvl : Nat) (pre rest : List Filter) (h : ∀ f ∈ pre, LevelGate f) :
+    (∀ m, (thresholdsOf pre).min? = some m →
+      ((runChain lvl (pre ++ rest)).2 = true ↔ lvl ≤ m ∧ (runChain lvl rest).2 = true)) ∧
+    ((thresholdsOf pre).min? = none →
+      (runChain lvl (pre ++ rest)).2 = (runChain lvl rest).2) := by
+  constructor
+  · intro m hm
+    rw [C03_thresholds_conjoin lvl pre rest h, all_le_iff_le_min lvl _ m hm]
+  · intro hn
+    have : thresholdsOf pre = [] := List.min?_eq_none_iff.mp hn
+    rw [runChain_prefix_no_accept lvl pre rest (gates_no_accept lvl pre h), gates_all_neutral lvl pre h,
+      this]
+    simp
+
+/-- a chain of thresholds alone (any number, any order) delivers exactly the records at most as
+verbose as the strictest of them; the order of the thresholds does not matter -/
+theorem C03_threshold_chain_many (lvl : Nat) (thrs : List Nat) :
+    (runChain lvl (thrs.map Filter.threshold)).2 = true ↔ ∀ t ∈ thrs, lvl ≤ t := by
+  have hg : ∀ f ∈ thrs.map Filter.threshold, LevelGate f := by
+    intro f hf
+    obtain ⟨t, _, rfl⟩ := List.mem_map.mp hf
+    trivial
+  have hts : thresholdsOf (thrs.map Filter.threshold) = thrs := by
+    induction thrs with
+    | nil => rfl
+    | cons t ts ih =>
+      simp only [List.map_cons, thresholdsOf]
+      rw [ih]
+      intro f hf
+      obtain ⟨t', _, rfl⟩ := List.mem_map.mp hf
+      trivial
+  have := C03_thresholds_conjoin lvl (thrs.map Filter.threshold) [] hg
+  simpa [hts, runChain] using this
+
+/-- an earlier Accept bypasses every later threshold, however strict -/
+theorem C03_accept_bypasses_thresholds (lvl : Nat) (pre later : List Filter)
+    (h : ∀ f ∈ pre, f.respond lvl = .neutral) :
+    runChain lvl (pre ++ Filter.fixed .accept :: later) = (pre.length + 1, true) := by
+  induction pre with
+  | nil => simp [runChain, Filter.respond]
+  | cons f fs ih =>
+    have hf := h f (by simp)
+    have ih' := ih (fun g hg => h g (by simp [hg]))
+    simp only [List.cons_append, runChain, hf, ih', List.length_cons]
+
+/-! ### the construction path does not matter -/
+
+/-- Declaration order is consultation order on every construction path: the chain attached through
+`Appender::builder().filter(…)…` and the chain attached from the `filters:` list of a
+configuration document whose entries all deserialize are both the declared list itself, so every
+theorem above about `runChain` speaks about both. (The harness constructs every chain through the
+builder, a YAML file and a JSON `RawConfig`.) -/
+theorem C03_chain_order_is_declaration_order (declared : List Filter) (lvl : Nat) :
+    builderChain declared = declared ∧
+    configChain (declared.map FilterEntry.ok) = (declared, 0) ∧
+    runChain lvl (configChain (declared.map FilterEntry.ok)).1 = runChain lvl (builderChain declared) := by
+  have h1 := builderChain_eq declared
+  have h2 : configChain (declared.map FilterEntry.ok) = (declared, 0) := by
+    rw [configChain_eq, validEntries_map_ok, count_bad_map_ok]
+  exact ⟨h1, h2, by rw [h1, h2]⟩
+
+/-- lossy document path in general: the chain is the entries that deserialize, in document order
+(never re-ordered, whatever their kind), and each entry that does not is reported once. -/
+theorem C03_config_chain_keeps_document_order (doc : List FilterEntry) :
+    configChain doc = (validEntries doc, doc.count .bad) :=
+  configChain_eq doc
+
 /-- The whole call sequence of one `Log::log` is the one assembled from each attached appender's own
 chain; in particular no panic when the attachment indices are in range (C13 guarantees that). -/
 theorem C03_fanout_eq_spec (table : List AppenderM) (nodeLevel : Nat) (attached : List Nat) (lvl : Nat)
@@ -218,6 +298,15 @@ example : runChain 3 [.fixed .neutral, .threshold 4] = (2, true) := by decide
 /-- a failing appender before a healthy one: both are called, one handler call at the end. -/
 example : fanout [⟨[.fixed .neutral], true⟩, ⟨[.threshold 2], false⟩, ⟨[], false⟩] 5 [0, 1, 2] 3 =
     .ok [.filter 0 0, .append 0, .filter 1 0, .append 2, .handler 0] := by decide
+/-- two leading thresholds of different levels: the stricter one decides, in either order -/
+example : (runChain 2 [.threshold 2, .threshold 1]).2 = false ∧ (runChain 2 [.threshold 1, .threshold 2]).2 = false ∧
+    (runChain 1 [.threshold 0, .threshold 1]).2 = false ∧ (runChain 1 [.threshold 2, .threshold 1]).2 = true := by decide
+/-- Accept declared before a strict threshold delivers; declared after it does not -/
+example : (runChain 3 [.fixed .accept, .threshold 1]).2 = true ∧ (runChain 3 [.threshold 1, .fixed .accept]).2 = false := by
+  decide
+/-- a document with a bad entry in the middle keeps the others in order -/
+example : configChain [.ok (.fixed .accept), .bad, .ok (.threshold 1)] = ([.fixed .accept, .threshold 1], 1) := by
+  decide
 /-- an out-of-range attachment is an explicit panic of the model, so the range hypothesis matters. -/
 example : fanout [⟨[], false⟩] 5 [1] 3 = .panic "appenders[idx]: index out of bounds" := by decide
 
